@@ -23,6 +23,9 @@ pub struct Case {
     /// everything: all samples' records
     pub everything: bool,
     pub in_place: bool,
+    /// line width of the weed FASTA (0 = unwrapped)
+    #[serde(default)]
+    pub wrap: u8,
 }
 
 fn case_strategy() -> BoxedStrategy<Case> {
@@ -34,9 +37,10 @@ fn case_strategy() -> BoxedStrategy<Case> {
                 prop_oneof![4 => Just(None), 1 => any::<u16>().prop_map(Some)],
                 prop::bool::weighted(0.06),
                 any::<bool>(),
+                prop_oneof![1 => Just(0u8), 1 => 1u8..80],
             )
         })
-        .prop_map(|(set, weed, whole_sample, everything, in_place)| Case { set, weed, whole_sample, everything, in_place })
+        .prop_map(|(set, weed, whole_sample, everything, in_place, wrap)| Case { set, weed, whole_sample, everything, in_place, wrap })
         .boxed()
 }
 
@@ -72,7 +76,7 @@ fn check(c: &Case, ctx: &Ctx) -> Outcome {
     let dir = ctx.case_dir();
     let r: Result<(usize, usize, bool), Outcome> = (|| {
         must_ok(&build(ctx, &dir, "x", &samples, k, rc, 1), "ska build")?;
-        cli::write_fasta_auto(&dir.join("weed.fa"), &wrecs, None);
+        cli::write_fasta_auto(&dir.join("weed.fa"), &wrecs, if c.wrap == 0 { None } else { Some(c.wrap as usize) });
         let (_d, full) = model_table(&samples, k, rc);
         let wset: BTreeSet<Vec<u8>> = model::build_sample(&wrecs, k, rc).keys().cloned().collect();
         let orig_bytes = std::fs::read(dir.join("x.skf")).map_err(|e| Outcome::Infra(e.to_string()))?;
@@ -157,13 +161,14 @@ fn check(c: &Case, ctx: &Ctx) -> Outcome {
             if rc_match { cl.push("rc_weed_sequence_matches"); }
             if wrecs.iter().any(|w| w.iter().any(|b| *b == b'N' || *b == b'n')) { cl.push("weed_with_N"); }
             if c.in_place { cl.push("in_place"); }
+            if c.wrap > 0 { cl.push("wrapped_weed_fasta"); }
             if k >= 33 { cl.push("128bit"); }
             pass((kept > 0 && removed > 0) || rc_match, key_of(&(k, rc, &wrecs, &samples)), cl)
         }
     }
 }
 
-const RULE: &str = "generated: file of 2-6 related samples; weed FASTA = mix of ancestor-derived pieces (substrings, mutated, reverse-complemented, with N), unrelated records, optionally a whole sample or all samples; --min-freq 0; both directions run from the same original (in place on a copy, or with -o). Oracle: result == model rows whose arms are not in (reverse: are in) the weed k-mer set, all symbols and names kept; the two results partition the original (checked without the model); a second weed changes nothing. Non-trivial: >=1 row removed and >=1 kept, or a reverse-complemented weed sequence matches.";
+const RULE: &str = "generated: file of 2-6 related samples; weed FASTA = mix of ancestor-derived pieces (substrings, mutated, reverse-complemented, with N), unrelated records, optionally a whole sample or all samples, written unwrapped or wrapped at a generated width; --min-freq 0; both directions run from the same original (in place on a copy, or with -o). Oracle: result == model rows whose arms are not in (reverse: are in) the weed k-mer set, all symbols and names kept; the two results partition the original (checked without the model); a second weed changes nothing. Non-trivial: >=1 row removed and >=1 kept, or a reverse-complemented weed sequence matches.";
 
 fn stages(tier: Tier) -> Vec<Box<dyn Stage>> {
     vec![gen_stage_show("weed", RULE, tier.pick(1200, 16_000), 200, case_strategy, check, |c| {
